@@ -358,6 +358,10 @@ func init() {
 	reg("errors.New", "returns a non-nil error", func(fr *Frame, in ssa.Instruction, st *State, args []Value, rt types.Type) Value {
 		return nonNilErr(fr.p, "errnew")
 	})
+	reg("fmt.Fprintln", "no effect on program state", func(fr *Frame, in ssa.Instruction, st *State, args []Value, rt types.Type) Value {
+		return fr.freshResult(st, rt, "fprintln")
+	})
+	libEffTable["fmt.Fprintln"] = noEffect
 	reg("fmt.Fprintf", "no effect on program state", func(fr *Frame, in ssa.Instruction, st *State, args []Value, rt types.Type) Value {
 		return fr.freshResult(st, rt, "fprintf")
 	})
